@@ -1,6 +1,7 @@
 (* drv_C08.ml — driver: runs the extracted C08 model (Gaussian particle filter
-   prediction / correction over a multi-step history) on the case file given on
-   stdin.  The standard-normal draws of every step are read from the
+   prediction / correction over a multi-step history with per-step operands) on the case
+   file given on stdin, one step at a time from the state the implementation reported
+   before that step.  The standard-normal draws of every step are read from the
    implementation's output (Sys.argv.(1), fields z<k>): they are inputs of the model.
    The square root of the proposal draws is the Gallina ldlt_sqrt of C08_Model (extracted);
    the record's msqrt oracle (used by C05's sigma points only) is a Jacobi factor. *)
@@ -99,9 +100,11 @@ let () =
       | Some io when Caseio.has io "skipped_ndebug" ->
         Caseio.out_begin c.id; Caseio.out_int "skipped_ndebug" 1; Caseio.out_end ()
       | Some io ->
-        let n = Caseio.meta_int c "n" and m = Caseio.meta_int c "m" and nn = Caseio.meta_int c "N" in
+        let n = Caseio.meta_int c "n" and nn = Caseio.meta_int c "N" in
         let steps = Caseio.meta_int c "steps" in
-        let g name = lmx_of_mat (Caseio.get_mat c name) in
+        (* operands of step k: mat "<name>_<k>" when the case has it, mat "<name>" otherwise (time-varying models) *)
+        let sm name k = let nk = Printf.sprintf "%s_%d" name k in Caseio.get_mat c (if Caseio.has c nk then nk else name) in
+        let g name k = lmx_of_mat (sm name k) in
         let tkind = if Caseio.meta c "tkind" = "cauchy" then 1 else 0 in
         let wrap = match Caseio.meta c "wrap" with "ukf" -> 1 | "sukf" -> 2 | _ -> 0 in
         let ut = if Caseio.has c "ut" then Caseio.get_mat c "ut" else [| [| 1.0; 2.0; 0.0 |] |] in
@@ -110,33 +113,40 @@ let () =
         let fl_ a k = k < Array.length a && a.(k) <> "0" in
         let gcok = w "gcok" and l1 = w "l1" and l2 = w "l2" and l3 = w "l3" and l4 = w "l4" and lok = w "lok" in
         let skpp = w "skpp" and skgp = w "skgp" and skpc = w "skpc" and skgc = w "skgc" in
-        let scale = (Caseio.get_mat c "scale").(0).(0) in
-        let cf = { cf_wrap = nat_of_int wrap; cf_ut = ((ob ut.(0).(0), ob ut.(0).(1)), ob ut.(0).(2));
-                   cf_hkind = nat_of_int (int_of_string (Caseio.meta c "hkind"));
-                   cf_H = g "H"; cf_G = g "G"; cf_G2 = g "G2"; cf_b = g "b"; cf_g = g "g"; cf_R = g "R"; cf_F = g "F"; cf_Q = g "Q";
-                   cf_scale = ob scale; cf_tkind = nat_of_int tkind; cf_Ft = g "Ft"; cf_Qt = g "Qt" } in
-        let set p = particles_of (Caseio.get_mat c (p ^ "_state")) (Caseio.get_mat c (p ^ "_mean"))
-                      (Caseio.get_mat c (p ^ "_cov")) (Caseio.get_mat c (p ^ "_lw")) in
+        (* the model is stateless per step: the configuration record is built per step *)
+        let cf k = { cf_wrap = nat_of_int wrap; cf_ut = ((ob ut.(0).(0), ob ut.(0).(1)), ob ut.(0).(2));
+                     cf_hkind = nat_of_int (int_of_string (Caseio.meta c "hkind"));
+                     cf_H = g "H" k; cf_G = g "G" k; cf_G2 = g "G2" k; cf_b = g "b" k; cf_g = g "g" k; cf_R = g "R" k;
+                     cf_F = g "F" k; cf_Q = g "Q" k;
+                     cf_scale = ob (sm "scale" k).(0).(0); cf_tkind = nat_of_int tkind; cf_Ft = g "Ft" k; cf_Qt = g "Qt" k } in
+        let mk k = Array.length (sm "H" k) in            (* measurement size of step k *)
+        let set_of (r : Caseio.case) p = particles_of (Caseio.get_mat r (p ^ "_state")) (Caseio.get_mat r (p ^ "_mean"))
+                      (Caseio.get_mat r (p ^ "_cov")) (Caseio.get_mat r (p ^ "_lw")) in
         let step k zs : step_tuple =
-          (((((lmx_of_mat (mat_col ys k), fl_ gcok k), (((fl_ l1 k, fl_ l2 k), fl_ l3 k), fl_ l4 k)), fl_ lok k),
+          let y = Array.sub (mat_col ys k) 0 (mk k) in
+          (((((lmx_of_mat y, fl_ gcok k), (((fl_ l1 k, fl_ l2 k), fl_ l3 k), fl_ l4 k)), fl_ lok k),
             (((fl_ skpp k, fl_ skgp k), fl_ skpc k), fl_ skgc k)), zs) in
-        let run_step pred corr valid lik st =
-          match c08_trace fops jacobi_sqrt (nat_of_int n) (nat_of_int m) cf pred corr valid lik [ st ] with
+        let run_step k pred corr valid lik st =
+          (* c08_trace_tv: the entry point with a measurement size and a configuration record per step *)
+          match c08_trace_tv fops jacobi_sqrt (nat_of_int n) pred corr valid lik [ ((nat_of_int (mk k), cf k), st) ] with
           | [ r ] -> r
-          | _ -> failwith "c08_trace: one step expected" in
+          | _ -> failwith "c08_trace_tv: one step expected" in
         Caseio.out_begin c.id;
-        let pred = ref (set "p") and corr = ref (set "c") and valid = ref false and lik = ref [] in
+        let pred = ref (set_of c "p") and corr = ref (set_of c "c") and valid = ref false and lik = ref [] in
         let max_zz = ref 0.0 and refact = ref 0 in
         for k = 0 to steps - 1 do
           let z = Caseio.get_mat io (Printf.sprintf "z%d" k) in
           let zs = List.init nn (fun i -> lmx_of_mat (mat_col z i)) in
-          let r0 = run_step !pred !corr !valid !lik (step k zs) in
+          let zz_of (z : Obj.t list list) = List.fold_left (fun a row -> List.fold_left (fun a v -> a +. fl v *. fl v) a row) 0.0 z in
+          let r0 = run_step k !pred !corr !valid !lik (step k zs) in
           let (((_, corr0), valid0), _) = r0 in
           let skipped = fl_ skpc k in
           (* The property leaves the square-root factor free (any L with L L^T = P).  If the implementation's
              positions differ from m + L z for the model's L, the positions are compared through the relation
-             instead: z' = L^-1 (x_impl - m) must satisfy |z'|^2 = |z|^2 (reported as zz_dev), and the step is
-             re-run on z' so that everything downstream is still compared. *)
+             instead: z' = L^-1 (x_impl - m) must satisfy |z'|^2 = |z|^2 (zz<k> reports |z'|^2 per particle), and
+             the step is re-run on z' so that everything downstream is still compared. *)
+          let refactored = ref false in
+          let zs_used = ref zs in
           let r =
             if valid0 && not skipped && Caseio.has io (Printf.sprintf "c%d_state" k) && Caseio.get_int io (Printf.sprintf "valid%d" k) = 1 then begin
               let xi = Caseio.get_mat io (Printf.sprintf "c%d_state" k) in
@@ -148,17 +158,18 @@ let () =
                     if d > !dev then dev := d
                   done) corr0;
               if !dev > 1e-6 then begin
-                incr refact;
+                incr refact; refactored := true;
                 let zs' = List.mapi (fun i ((((_, mu), p), _), z) ->
                     let l = mat_of_lmx (ldlt (nat_of_int n) p) and mu = mat_of_lmx mu in
                     let rhs = Array.init n (fun r -> xi.(r).(i) -. mu.(r).(0)) in
                     let z' = solve l rhs in
                     let zz = Array.fold_left (fun a v -> a +. v *. v) 0.0 z'
-                    and zz0 = List.fold_left (fun a row -> List.fold_left (fun a v -> a +. fl v *. fl v) a row) 0.0 z in
+                    and zz0 = zz_of z in
                     let d = abs_float (zz -. zz0) /. (1.0 +. zz0) in
                     if d > !max_zz || d <> d then max_zz := d;
                     lmx_of_mat (Array.map (fun v -> [| v |]) z')) (List.combine corr0 zs) in
-                run_step !pred !corr !valid !lik (step k zs')
+                zs_used := zs';
+                run_step k !pred !corr !valid !lik (step k zs')
               end else r0
             end else r0 in
           let (((pred', corr'), valid'), lik') = r in
@@ -173,7 +184,25 @@ let () =
           let ls = List.map (fun (((_, _), p), _) -> mat_of_lmx (ldlt (nat_of_int n) p)) corr' in
           Caseio.out_mat_shape (Printf.sprintf "L%d" k) n (n * List.length corr')
             (Array.init n (fun r -> Array.concat (List.map (fun l -> l.(r)) ls)));
-          pred := pred'; corr := corr'; valid := valid'; lik := lik'
+          (* |z|^2 of the draws the model used (those of the implementation, or z' after a change of factor) *)
+          Caseio.out_mat_shape (Printf.sprintf "zz%d" k) (List.length !zs_used) 1
+            (Array.of_list (List.map (fun z -> [| zz_of z |]) !zs_used));
+          Caseio.out_int (Printf.sprintf "refact%d" k) (if !refactored then 1 else 0);
+          (* RE-SYNCHRONISATION.  The model is a function of the state before the step (the two buffers,
+             valid_likelihood_, likelihood_) and of the step's inputs; the history is the composition of the steps
+             (C08_multi_step / C08_trace_is_run).  Step k+1 of the model therefore starts from the state the
+             IMPLEMENTATION reported after step k (every field of which has just been compared with the model's):
+             each step is compared on identical inputs and rounding differences do not compound along the history.
+             Where the implementation's record lacks a field the model's own state is kept. *)
+          let has_set p = List.for_all (fun f -> Caseio.has io (Printf.sprintf "%s%d_%s" p k f)) [ "state"; "mean"; "cov"; "lw" ]
+                          && mat_cols (Caseio.get_mat io (Printf.sprintf "%s%d_mean" p k)) = nn
+                          && Array.length (Caseio.get_mat io (Printf.sprintf "%s%d_mean" p k)) = n in
+          pred := (if has_set "p" then set_of io (Printf.sprintf "p%d" k) else pred');
+          corr := (if has_set "c" then set_of io (Printf.sprintf "c%d" k) else corr');
+          if Caseio.has io (Printf.sprintf "valid%d" k) && Caseio.has io (Printf.sprintf "lik%d" k) then begin
+            valid := (Caseio.get_int io (Printf.sprintf "valid%d" k) = 1);
+            lik := List.map (fun r -> ob r.(0)) (Array.to_list (Caseio.get_mat io (Printf.sprintf "lik%d" k)))
+          end else begin valid := valid'; lik := lik' end
         done;
         Caseio.out_int "other_factor_steps" !refact;
         Caseio.out_num "zz_dev" !max_zz;
